@@ -1,4 +1,5 @@
 import NavisModel.Proofs.CacheLemmas
+import NavisModel.Proofs.CacheTraceLemmas
 import NavisModel.Gen.CacheSpec
 /-!
 # C02 — derived views always agree with the current node table
@@ -73,61 +74,77 @@ theorem never_returns_older_value (es : List Ev) (ha : admAll spec init es = tru
     readTag spec (run spec init es) v = some (run spec init es).ver :=
   (read_returns_current _ (J_run (sound_facts spec_sound) es init (J_init spec) ha) hl v hv).1
 
-/-- Every operation of the generated table — optional lock, reads under the lock, a change, more cache
-writes (graphs edited in step / carried over), its `_clear_temp_attr(exclude=…)`, unlock — preserves the
-invariant; in particular deleting the explicit clear (`withClear = false`) does not break it. -/
+/-- Every operation of the generated table — (for `@lock_neuron` functions) the wrapper's entry check and the
+lock, reads under the lock, a change, more cache writes (graphs edited in step / carried over), its
+`_clear_temp_attr(exclude=…)`, unlock — preserves the invariant; in particular deleting the explicit clear
+(`withClear = false`) does not break it. -/
 theorem operation_preserves (c : ClearSite) (hc : c ∈ spec.clearSites) (s : St) (h : J spec s)
     (pre post : List View) (hpre : ∀ v ∈ pre, v ∈ spec.views) (hpost : ∀ v ∈ post, v ∈ spec.views)
     (v t : Nat) (hv : s.hi ≤ v) (withClear : Bool) :
-    J spec (run spec s ((if c.locked then [Ev.lock] else []) ++ pre.map (fun w => Ev.write w.attr) ++ [Ev.change v t]
-      ++ post.map (fun w => Ev.write w.attr) ++ (if withClear then [Ev.clear c.excl] else [])
-      ++ (if c.locked then [Ev.unlock] else []))) := by
+    J spec (run spec s (opPrims spec s c pre post v t withClear)) := by
   have hs := sound_facts spec_sound
   have hk : knownExcl spec c.excl = true := by
     unfold knownExcl; simp only [Bool.or_eq_true, List.any_eq_true]
     exact Or.inr ⟨c, hc, by simp⟩
   -- events that neither change the content nor need a side condition
   have safe : ∀ (es : List Ev), (∀ e ∈ es, e = .lock ∨ e = .unlock ∨ (∃ w ∈ spec.views, e = .write w.attr) ∨
-      e = .clear c.excl) → ∀ s, J spec s → J spec (run spec s es) ∧ (run spec s es).hi = s.hi := by
+      e = .clear c.excl ∨ e = .isStale ∨ e = .clear []) → ∀ s, J spec s → J spec (run spec s es) ∧ (run spec s es).hi = s.hi := by
     intro es
     induction es with
     | nil => intro _ s h; exact ⟨h, rfl⟩
     | cons e es ih =>
       intro he s h
       have h1 : J spec (step spec s e) ∧ (step spec s e).hi = s.hi := by
-        rcases he e (by simp) with rfl | rfl | ⟨w, hw, rfl⟩ | rfl
+        rcases he e (by simp) with rfl | rfl | ⟨w, hw, rfl⟩ | rfl | rfl | rfl
         · exact ⟨⟨h.md5_lt, h.ver_lt, h.attrs, h.fresh⟩, rfl⟩
         · exact ⟨⟨h.md5_lt, h.ver_lt, h.attrs, h.fresh⟩, rfl⟩
         · exact ⟨J_put h (mem_cachedAttrs.mpr ⟨w, hw, rfl⟩), rfl⟩
         · refine ⟨J_clear hs h hk, ?_⟩
           simp only [step, clearS, clearBase, classifyS]
           split <;> split <;> rfl
+        · exact ⟨J_isStale h, (isStaleS_fields spec s).2.1⟩
+        · refine ⟨J_clear hs h (knownExcl_nil spec), ?_⟩
+          simp only [step, clearS, clearBase, classifyS]
+          split <;> split <;> rfl
       obtain ⟨a, b⟩ := ih (fun e' he' => he e' (by simp [he'])) _ h1.1
       exact ⟨a, b.trans h1.2⟩
-  have hA : ∀ e ∈ (if c.locked then [Ev.lock] else []) ++ pre.map (fun w => Ev.write w.attr),
-      e = .lock ∨ e = .unlock ∨ (∃ w ∈ spec.views, e = .write w.attr) ∨ e = .clear c.excl := by
+  have hE : ∀ e ∈ lockEntryPrims spec s, e = Ev.isStale ∨ e = Ev.clear [] := by
+    intro e he
+    unfold lockEntryPrims at he
+    split at he
+    · simp at he
+    · split at he <;> simp at he
+      · exact he
+      · exact Or.inl he
+  have hA : ∀ e ∈ (if c.locked then lockEntryPrims spec s ++ [Ev.lock] else []) ++ pre.map (fun w => Ev.write w.attr),
+      e = .lock ∨ e = .unlock ∨ (∃ w ∈ spec.views, e = .write w.attr) ∨ e = .clear c.excl ∨ e = .isStale ∨ e = .clear [] := by
     intro e he
     rw [List.mem_append] at he
     rcases he with he | he
-    · split at he <;> simp at he; exact Or.inl he
+    · split at he
+      · rw [List.mem_append] at he
+        rcases he with he | he
+        · rcases hE e he with rfl | rfl
+          · exact Or.inr (Or.inr (Or.inr (Or.inr (Or.inl rfl))))
+          · exact Or.inr (Or.inr (Or.inr (Or.inr (Or.inr rfl))))
+        · simp at he; exact Or.inl he
+      · simp at he
     · obtain ⟨w, hw, rfl⟩ := List.mem_map.mp he
       exact Or.inr (Or.inr (Or.inl ⟨w, hpre w hw, rfl⟩))
   have hB : ∀ e ∈ post.map (fun w => Ev.write w.attr) ++ (if withClear then [Ev.clear c.excl] else [])
       ++ (if c.locked then [Ev.unlock] else []),
-      e = .lock ∨ e = .unlock ∨ (∃ w ∈ spec.views, e = .write w.attr) ∨ e = .clear c.excl := by
+      e = .lock ∨ e = .unlock ∨ (∃ w ∈ spec.views, e = .write w.attr) ∨ e = .clear c.excl ∨ e = .isStale ∨ e = .clear [] := by
     intro e he
     rw [List.mem_append, List.mem_append] at he
     rcases he with (he | he) | he
     · obtain ⟨w, hw, rfl⟩ := List.mem_map.mp he
       exact Or.inr (Or.inr (Or.inl ⟨w, hpost w hw, rfl⟩))
-    · split at he <;> simp at he; exact Or.inr (Or.inr (Or.inr he))
+    · split at he <;> simp at he; exact Or.inr (Or.inr (Or.inr (Or.inl he)))
     · split at he <;> simp at he; exact Or.inr (Or.inl he)
-  have e : (if c.locked then [Ev.lock] else []) ++ pre.map (fun w => Ev.write w.attr) ++ [Ev.change v t]
-      ++ post.map (fun w => Ev.write w.attr) ++ (if withClear then [Ev.clear c.excl] else [])
-      ++ (if c.locked then [Ev.unlock] else []) =
-      ((if c.locked then [Ev.lock] else []) ++ pre.map (fun w => Ev.write w.attr)) ++ ([Ev.change v t]
+  have e : opPrims spec s c pre post v t withClear =
+      ((if c.locked then lockEntryPrims spec s ++ [Ev.lock] else []) ++ pre.map (fun w => Ev.write w.attr)) ++ ([Ev.change v t]
       ++ (post.map (fun w => Ev.write w.attr) ++ (if withClear then [Ev.clear c.excl] else [])
-      ++ (if c.locked then [Ev.unlock] else []))) := by simp [List.append_assoc]
+      ++ (if c.locked then [Ev.unlock] else []))) := by simp [opPrims, List.append_assoc]
   rw [e, run_append, run_append]
   obtain ⟨j1, h1⟩ := safe _ hA s h
   have j2 := J_step hs j1 (.change v t) (by simp [admB, h1, hv])
@@ -151,13 +168,186 @@ that *raises* — after any reads / cache writes / changes in its body — leave
 was (the generated spec says the release sits in a `finally:`), so an unlocked neuron stays unlocked and
 `read_returns_current` keeps applying to it. -/
 theorem failed_call_releases_lock (s : St) (body : List Ev) (hb : ∀ e ∈ body, lockNeutral e = true) (raises : Bool) :
-    (run spec s (lockedCall spec body raises)).lock = s.lock :=
+    (run spec s (lockedCall spec s body raises)).lock = s.lock :=
   lockedCall_lock (by decide) s body hb raises
 
-/-- … and a call that raises before doing anything has no effect on the protocol state at all. -/
-theorem failed_call_is_noop (s : St) : run spec s (lockedCall spec [] true) = s := by
+/-- … and a call that raises before doing anything has exactly the effect of the wrapper's entry check
+(`is_stale`, and a clear if stale) — in particular it has no effect at all on a neuron that is locked or whose
+stamp is current. -/
+theorem failed_call_is_noop (s : St) :
+    run spec s (lockedCall spec s [] true) = run spec s (lockEntryPrims spec s) ∧
+    ((0 < s.lock ∨ (s.stale = false ∧ s.md5 = s.ver)) → run spec s (lockedCall spec s [] true) = s) := by
   have hf : spec.lockFinally = true := by decide
-  simp [lockedCall, hf, run, step]
+  have e1 : run spec s (lockedCall spec s [] true) = run spec s (lockEntryPrims spec s) := by
+    have hlk := lockedCall_lock hf s [] (by simp) true
+    unfold lockedCall at hlk ⊢
+    simp only [hf, Bool.not_true, Bool.and_false, Bool.false_eq_true, if_false, List.append_nil] at hlk ⊢
+    rw [List.append_assoc, run_append] at hlk ⊢
+    have h0 := run_lock_neutral spec (lockEntryPrims spec s) s (lockEntryPrims_neutral spec s)
+    generalize run spec s (lockEntryPrims spec s) = s0 at h0 hlk ⊢
+    show { ({ s0 with lock := s0.lock + 1 } : St) with lock := s0.lock + 1 - 1 } = s0
+    cases s0; simp
+  refine ⟨e1, ?_⟩
+  intro hc
+  rw [e1]
+  rcases hc with hl | ⟨hst, hm⟩
+  · have : lockEntryPrims spec s = [] := by unfold lockEntryPrims; simp [hl]
+    rw [this]; rfl
+  · have hns : isStaleS spec s = s := by
+      unfold isStaleS
+      have h1 : spec.isStaleRecomputes = true := by decide
+      simp only [hst, Bool.and_false, Bool.false_eq_true, if_false, h1, if_true]
+      cases s; simp_all
+    unfold lockEntryPrims
+    split
+    · rfl
+    · rw [hns, hst]; simp only [Bool.false_eq_true, if_false]
+      show isStaleS spec s = s
+      exact hns
+
+/-- A locked call whose body consists of admissible events preserves the invariant (the entry check is an
+`is_stale` evaluation and possibly a clear with the default `exclude`: admissible). -/
+theorem locked_call_preserves (s : St) (h : J spec s) (body : List Ev) (raises : Bool)
+    (hb : admAll spec (run spec s (lockEntryPrims spec s ++ [Ev.lock])) body = true) :
+    J spec (run spec s (lockedCall spec s body raises)) := by
+  have hs := sound_facts spec_sound
+  have j0 : J spec (run spec s (lockEntryPrims spec s ++ [Ev.lock])) := by
+    rw [run_append]
+    have := J_lockEntry hs h
+    exact ⟨this.md5_lt, this.ver_lt, this.attrs, this.fresh⟩
+  have j1 : J spec (run spec s (lockEntryPrims spec s ++ [Ev.lock] ++ body)) := by
+    rw [run_append]; exact J_run hs body _ j0 hb
+  unfold lockedCall
+  rw [run_append]
+  split
+  · exact j1
+  · exact ⟨j1.md5_lt, j1.ver_lt, j1.attrs, j1.fresh⟩
+
+/-! ### Reads inside a locked operation (fix 4ae1633: `lock_neuron` validates the caches before locking) -/
+
+/-- The generated spec says that `lock_neuron` evaluates `is_stale` (and clears if stale) on an unlocked neuron
+before it increments the lock counter.  Reverting the fix turns this into `false` and the next three theorems
+stop checking. -/
+theorem lock_validates_before_locking : spec.lockChecksStale = true := by decide
+
+/-- When a `@lock_neuron` function (reroot_skeleton, subset_neuron, dist_between, dist_to_root, distal_to,
+segment_length, classify_nodes) is entered on an unlocked neuron, then at the moment the lock is taken the
+content is what it was at entry and **every** cache entry — wrapped or not — was computed from that content,
+whatever was cached before and however the table was edited before the call. -/
+theorem lock_entry_establishes (s : St) (h : J spec s) (hl : s.lock = 0) :
+    let s1 := run spec s (lockEntryPrims spec s ++ [Ev.lock])
+    s1.ver = s.ver ∧ s1.lock = 1 ∧ (∀ p ∈ s1.cache, p.2 = s.ver) ∧ J spec s1 :=
+  lockEntry_establishes (sound_facts spec_sound) lock_validates_before_locking h hl
+
+/-- **A read of a cached view inside a locked operation that was entered on an unlocked neuron returns a value
+computed from the content at entry** — for every view, after any number of earlier reads under the same lock
+(the staleness wrapper is skipped while the lock is held, so this rests on the entry check alone). -/
+theorem locked_read_returns_entry_content (s : St) (h : J spec s) (hl : s.lock = 0) (vs : List View) (v : View) :
+    readTag spec (readsS spec (run spec s (lockEntryPrims spec s ++ [Ev.lock])) vs) v = some s.ver :=
+  locked_read_entry (sound_facts spec_sound) lock_validates_before_locking h hl vs v
+
+/-- … in particular after any admissible history that leaves the neuron unlocked (warm caches, direct in-place
+edits, operations, copies, pickling in any order): the graph a locked operation works on is the graph of the
+table it was called with. -/
+theorem locked_read_after_any_history (es : List Ev) (ha : admAll spec init es = true)
+    (hl : (run spec init es).lock = 0) (v : View) :
+    let s := run spec init es
+    readTag spec (run spec s (lockEntryPrims spec s ++ [Ev.lock])) v = some s.ver :=
+  locked_read_returns_entry_content _ (J_run (sound_facts spec_sound) es init (J_init spec) ha) hl [] v
+
+/-- **Negation for the code before the fix** (`lockChecksStale = false`, everything else as generated): warm the
+networkx graph, edit the table in place, call a locked operation — the read under the lock returns the graph of
+the OLD table (content 0) although the table has content 1.  This is the history of finding
+`lock_neuron/no-staleness-check-before-lock` (read graph → `x.nodes.loc[…,'parent_id'] = …` → `x.reroot(…)`). -/
+theorem unchecked_lock_witness :
+    let sp := { spec with lockChecksStale := false }
+    let v : View := ⟨"graph", "_graph_nx", true, false⟩
+    let s := run sp (readS sp init v) [.change 1 1]
+    s.lock = 0 ∧ s.ver = 1 ∧ readTag sp (run sp s (lockEntryPrims sp s ++ [Ev.lock])) v = some 0 := by decide
+
+/-- … and in general: without the entry check a read under the lock returns whatever is cached. -/
+theorem unchecked_lock_returns_cached (sp : Spec) (hf : sp.lockChecksStale = false) (s : St) (v : View) (old : Nat)
+    (ht : tagOf s v.attr = some old) :
+    readTag sp (run sp s (lockEntryPrims sp s ++ [Ev.lock])) v = some old :=
+  unchecked_lock_reads_cache hf s v old ht
+
+/-! ### Observed traces refine the primitive events
+
+The `TreeNeuron` override of `_clear_temp_attr` calls `classify_nodes`, itself a `@lock_neuron` function; a trace of
+the real object shows that nested call (`C: S L U Y`).  The driver's discipline check compares real traces with
+the *observed* form of the model's event lists; these theorems say the observed form ends in the same state as
+the primitive form the freshness theorems are about. -/
+
+theorem clear_trace_refines (s : St) (excl : List String) :
+    run spec s (clearTrace spec s excl) = step spec s (.clear excl) :=
+  clearTrace_refines (sound_facts spec_sound).restamps s excl
+
+theorem observed_trace_refines (es : List Ev) (s : St) : run spec s (expandClears spec s es) = run spec s es :=
+  expandClears_refines (sound_facts spec_sound).restamps es s
+
+/-! ### Cached objects shared between a neuron and its copy (fix 7a5fe2d)
+
+`TreeNeuron.copy()` hands the copy a *view* of the original's networkx graph (`sharedOnCopy`, generated); the
+generated `editors` are the functions that edit a cached graph object in place. -/
+
+/-- Source-level obligation over the generated facts: every function that edits, in place, a cached object that
+copies share (today: `reroot_skeleton` on `_graph_nx`) first re-binds the attribute to an independent object.
+Reverting 7a5fe2d makes this fail to check. -/
+theorem shared_objects_are_detached_before_editing :
+    ∀ e ∈ spec.editors, (spec.sharedOnCopy.contains e.attr = true → e.detaches = true) :=
+  aliasSafe_facts (by decide)
+
+/-- **After copying, whatever is done to one side — reads, further copies, in-place operations that co-edit the
+cached object, direct edits — each side's cached object keeps describing that side's own table**, for every
+cache attribute and every in-place editor of the generated spec, for all histories. -/
+theorem copy_views_independent (e : Editor) (he : e ∈ spec.editors) (es : List PEv) (v0 : Nat) :
+    PairOK (prun (spec.sharedOnCopy.contains e.attr) e.detaches ⟨v0, v0, none, none, false⟩ es) :=
+  (pairInv_run (shared_objects_are_detached_before_editing e he) es _
+    ⟨⟨Or.inl rfl, Or.inl rfl⟩, by simp⟩).ok
+
+/-- an attribute that copies do not share (`_igraph`: always deep-copied) may be edited in place -/
+theorem unshared_objects_may_be_edited (detaches : Bool) (es : List PEv) (v0 : Nat) :
+    PairOK (prun false detaches ⟨v0, v0, none, none, false⟩ es) :=
+  (pairInv_run (shared := false) (by simp) es _ ⟨⟨Or.inl rfl, Or.inl rfl⟩, by simp⟩).ok
+
+/-- Negation for the code before the fix (shared view, edited in place without detaching): read the graph, copy,
+reroot the original — the COPY's graph now describes the original's new table (1), not the copy's own (0).
+This is the history of finding `reroot_skeleton(networkx)/edits-_graph_nx-in-place`. -/
+theorem shared_edit_witness :
+    let p := prun true false ⟨0, 0, none, none, false⟩ [.warm false, .copy false, .edit false 1]
+    p.verB = 0 ∧ p.tagB = some 1 ∧ ¬ PairOK p := by
+  refine ⟨rfl, rfl, ?_⟩
+  intro h
+  have := h.2
+  simp [prun, pstep] at this
+
+/-! ### What the checksum is computed from (seeded change C02_4: a narrowing cast before hashing) -/
+
+/-- `core_md5` restricts the table to the `CORE_DATA` columns and applies **no dtype conversion of its own**
+before hashing (the generated literal of the cast expression is empty). -/
+theorem hash_no_narrowing_cast : spec.hashSelectsCols = true ∧ spec.hashCast = "" := by decide
+
+/-- What reaches the hash function keeps 53 significand bits, so every cell that is exactly representable in a
+float64 — node ids up to `2^53` in absolute value and every float64 coordinate (cell = its significand) — is
+hashed as it is: two rows of such cells with the same hash input are the same row.  Together with the injectivity
+of the hash function itself (trusted base) the checksum then distinguishes any two contents of the hashed
+columns.  A float32 cast (`hashBits = 24`) makes this theorem fail to check. -/
+theorem hash_input_injective (a b : List Int) (ha : ∀ n ∈ a, n.natAbs ≤ 2 ^ 53) (hb : ∀ n ∈ b, n.natAbs ≤ 2 ^ 53)
+    (h : hashInput spec a = hashInput spec b) : a = b := by
+  have h53 : spec.hashBits = 53 := by decide
+  exact hashInput_injective (sp := spec) a b (by rw [h53]; exact ha) (by rw [h53]; exact hb) h
+
+/-- Negation for a float32 cast: the parent links `2^24` and `2^24 + 1` (and a coordinate move in the 25th
+significant bit) reach the hash function as the same number … -/
+theorem float32_cast_collides : roundBits 24 (2 ^ 24 + 1) = roundBits 24 (2 ^ 24) ∧ (2 : Int) ^ 24 + 1 ≠ 2 ^ 24 := by
+  decide
+
+/-- … and the same holds **for the code as it is** above `2^53`: `DataFrame.values` on the int64 / float64 node
+table yields float64, so node ids beyond `2^53` that differ in their low bits are hashed alike (finding
+`core_md5/int64-ids-upcast-to-float64/ids>2**53`); the bound in `hash_input_injective` is sharp. -/
+theorem float64_upcast_collides_above_2_53 :
+    roundBits spec.hashBits (2 ^ 53 + 1) = roundBits spec.hashBits (2 ^ 53) ∧ (2 : Int) ^ 53 + 1 ≠ 2 ^ 53 := by
+  decide
 
 /-- Edit / undo on an unlocked neuron: content may return to *any* earlier value (no freshness assumption
 on `change`); as long as no operation holding the lock intervenes and only wrapped views are read, the
@@ -237,5 +427,29 @@ example : UAdm spec (.read ⟨"segments", "_segments", true, false⟩) := ⟨by 
 example : let s := run spec init [.write "_segments", .lock, .change 1 1, .clear ["graph", "classify_nodes"], .unlock]
     stampCurrent s = false ∧ tagOf s "_segments" = some 0 ∧
     readTag spec s ⟨"segments", "_segments", true, false⟩ = some 1 := by decide
+
+-- the entry check of `lock_neuron` in a state with a warm cache and a pending in-place edit: `is_stale`, clear
+example : lockEntryPrims spec (run spec init [.write "_graph_nx", .change 1 1]) = [.isStale, .clear []] := by decide
+-- … and the read under the lock then returns the graph of the edited table (hypotheses of
+-- `locked_read_returns_entry_content` are satisfiable; the value is the content at entry, 1)
+example : let s := run spec init [.write "_graph_nx", .change 1 1]
+    s.lock = 0 ∧ readTag spec (run spec s (lockEntryPrims spec s ++ [Ev.lock])) ⟨"graph", "_graph_nx", true, false⟩ = some 1 := by
+  decide
+-- a real trace (`x.graph; x.nodes = df; x.graph; x.nodes.loc[…] += 1; reroot_skeleton(x, 6, inplace=True)`) is
+-- admissible and obeys the wrapper / lock-entry discipline …
+example : let tr : List Ev := [.enter "graph", .isStale, .write "_graph_nx", .exit "graph", .change 1 0, .isStale, .clear [],
+      .isStale, .lock, .unlock, .classify, .lock, .unlock, .classify, .enter "graph", .isStale, .write "_graph_nx", .exit "graph",
+      .change 2 0, .isStale, .clear [], .isStale, .lock, .unlock, .classify, .lock, .enter "igraph", .write "_igraph",
+      .exit "igraph", .change 3 1, .clear ["igraph", "classify_nodes"], .unlock, .write "_igraph", .retype 0]
+    admAll spec init tr = true ∧ discipline spec init tr = [] := by decide
+-- … whereas taking the lock over a stale cache without the entry check (the code before 4ae1633) is flagged
+example : discipline spec init [.enter "graph", .isStale, .write "_graph_nx", .exit "graph", .change 1 0, .lock,
+    .enter "graph", .exit "graph", .unlock] = [5] := by decide
+example : (run spec init (lockedCall spec init [.write "_igraph", .change 1 1, .write "_igraph"] false)).lock = 0 := by decide
+-- the generated facts are not empty: copies share the networkx graph, and reroot edits both graphs in place
+example : ∃ e ∈ spec.editors, spec.sharedOnCopy.contains e.attr = true ∧ e.detaches = true := by decide
+-- with the detaching editor the history of `shared_edit_witness` leaves the copy alone
+example : let p := prun true true ⟨0, 0, none, none, false⟩ [.warm false, .copy false, .edit false 1]
+    p.tagB = some 0 ∧ p.tagA = some 1 ∧ p.same = false := by decide
 
 end Navis.Props.C02
